@@ -492,7 +492,7 @@ impl MatmulHelper {
             for j in 0..cipher.data[0].len() {
                 let shift = pack_slots - 1;
                 let mut ciphertext = cipher.data[i][j].clone();
-                if context_data.is_ckks() {
+                if context_data.is_ckks() || context_data.is_bgv() {
                     evaluator.transform_from_ntt_inplace(&mut ciphertext);
                 }
                 if shift != 0 {
@@ -506,11 +506,11 @@ impl MatmulHelper {
                     buffer.data_mut().copy_from_slice(ciphertext.data());
                 }
                 evaluator.divide_by_poly_modulus_degree_inplace(&mut buffer, Some((poly_degree / pack_slots) as u64));
-                if context_data.is_ckks() {
+                if context_data.is_ckks() || context_data.is_bgv() {
                     evaluator.transform_to_ntt_inplace(&mut buffer);
                 }
                 evaluator.field_trace_inplace(&mut buffer, auto_key, field_trace_logn);
-                if context_data.is_ckks() {
+                if context_data.is_ckks() || context_data.is_bgv() {
                     evaluator.transform_from_ntt_inplace(&mut buffer);
                 }
                 let shift = current_slot;
@@ -541,7 +541,7 @@ impl MatmulHelper {
         if current.is_some() {
             output.push(current.unwrap());
         }
-        if context_data.is_ckks() {
+        if context_data.is_ckks() || context_data.is_bgv() {
             for each in output.iter_mut() {
                 evaluator.transform_to_ntt_inplace(each);
             }
